@@ -421,3 +421,14 @@ def c22(ctx):
                 "unexpanded product) against bag-of-monomials arithmetic over the union of the variables, with the "
                 "structural conditions: variables of the result exactly the union, no zero coefficient stored")
     simple(ctx, "MC_C22", "Trace_C22", floor=0.5, shards=5)
+
+
+@plan("C26")
+def c26(ctx):
+    ctx.rule = ("TLC enumerates matrix-expression trees of depth 0-2 over dense, diagonal, identity and zero leaves of "
+                "shapes 2x2, 2x3, 3x2, 3x3 (numeric, Gaussian and symbolic entries), matrix add, multiply (with scalar "
+                "factors), Hadamard product, transpose and conjugate, plus mismatched shapes and matrix symbols with "
+                "symbolic dimensions; TLC evaluates recipe and returned expression to concrete matrices (MVal) and "
+                "demands equal values, predicates (zero, diagonal, symmetric, lower, upper, real, square, Toeplitz) not "
+                "contradicted by the concrete matrix, correct sizes and trace")
+    simple(ctx, "MC_C26", "Trace_C26", floor=0.5, shards=5)
